@@ -3,21 +3,19 @@ import BeffVerif.Model.Hash
 /-!
 The canonical token stream of `hash256(ctx)` of every `*Runtype` class (codegen-v2.ts) and `ParserFromRuntype.hash256`.
 
-State of `Hash256Context`: the writer (here: the tokens written so far, newest first, and the number of bytes they
-occupy — `Hash256Writer.position()`), and `active` (the named types being expanded, with the offset at which the
-encoding of each starts). A reference to an active type writes `cycleRef <offset>`; any other reference is transparent.
+State of `Hash256Context`: the writer — here the tokens written by a node are the function's RESULT and `pos` is the
+number of bytes written before the node starts (`Hash256Writer.position()`) — and `active` (the named types being
+expanded, each with the offset at which its encoding starts). A reference to an active type writes
+`cycleRef <offset>`; any other reference is transparent.
 -/
 namespace BeffVerif
 namespace RT
 open Sha
 
-structure HS where
-  toks : List Tok      -- newest first
-  pos : Nat
-  deriving Repr
-
-def HS.emit (s : HS) (t : Tok) : HS := ⟨t :: s.toks, s.pos + t.bytes.length⟩
-def HS.emits (s : HS) (ts : List Tok) : HS := ts.foldl HS.emit s
+/-- bytes occupied by a token list -/
+def bytesLen : List Tok → Nat
+  | [] => 0
+  | t :: ts => t.bytes.length + bytesLen ts
 
 def natTok (n : Nat) : Tok := .num (toString n)
 
@@ -46,79 +44,88 @@ def isOptionalField (t : RT) : Bool :=
   | .optional _ => true
   | _ => false
 
-/-- fold a state through a list of sub-encoders -/
-def foldHS {α : Type} (f : α → HS → Option HS) : List α → HS → Option HS
-  | [], s => some s
-  | x :: xs, s => match f x s with
-    | some s' => foldHS f xs s'
+/-- run sub-encoders one after the other; each starts where the previous one stopped -/
+def seqT {α : Type} (f : α → Nat → Option (List Tok)) : List α → Nat → Option (List Tok)
+  | [], _ => some []
+  | x :: xs, pos => match f x pos with
+    | some ts => (match seqT f xs (pos + bytesLen ts) with
+      | some r => some (ts ++ r)
+      | none => none)
     | none => none
 
-/-- `hash256(ctx)`; `none` = fuel, an unbound name or a constant outside `Const` -/
-def h256 (env : Env) : Nat → RT → List (String × Nat) → HS → Option HS
+/-- a fixed prefix, then an encoder -/
+def pre (p : List Tok) (f : Nat → Option (List Tok)) (pos : Nat) : Option (List Tok) :=
+  (f (pos + bytesLen p)).map (p ++ ·)
+
+/-- one encoder after another -/
+def andThen (f g : Nat → Option (List Tok)) (pos : Nat) : Option (List Tok) :=
+  match f pos with
+  | some ts => (g (pos + bytesLen ts)).map (ts ++ ·)
+  | none => none
+
+def sortedProps (props : List (String × RT)) : List (String × RT) :=
+  JsVal.sortBy (fun (a b : String × RT) => JsVal.strLe a.1 b.1) props
+
+def sortedConsts (vs : List JsVal) : List JsVal :=
+  JsVal.sortBy (fun a b => JsVal.strLe (constSortKey a) (constSortKey b)) vs
+
+/-- `hash256(ctx)` of a node that starts at offset `pos`; `none` = fuel, an unbound name or a constant outside `Const` -/
+def h256 (env : Env) : Nat → RT → List (String × Nat) → Nat → Option (List Tok)
   | 0, _, _, _ => none
-  | n+1, rt, act, s =>
-    let h (t : RT) (s : HS) := h256 env n t act s
+  | n+1, rt, act, pos =>
+    let h (t : RT) (p : Nat) := h256 env n t act p
     match rt with
-    | .typeof t => some (s.emits [.tag "typeof", .str t])
-    | .any => some (s.emit (.tag "any"))
-    | .nullish _ => some (s.emit (.tag "nullish"))
-    | .never => some (s.emit (.tag "never"))
-    | .const v => (constToks v).map fun ts => s.emits (.tag "const" :: ts)
-    | .regex _ d => some (s.emits [.tag "regex", .str d])
-    | .date => some (s.emit (.tag "date"))
-    | .bigint => some (s.emit (.tag "bigint"))
-    | .typed c => some (s.emits [.tag "typedArray", .str c])
-    | .strfmt fs => some (s.emits (.tag "stringWithFormat" :: natTok fs.length :: (JsVal.sortStrings fs).map .str))
-    | .numfmt fs => some (s.emits (.tag "numberWithFormat" :: natTok fs.length :: (JsVal.sortStrings fs).map .str))
+    | .typeof t => some [.tag "typeof", .str t]
+    | .any => some [.tag "any"]
+    | .nullish _ => some [.tag "nullish"]
+    | .never => some [.tag "never"]
+    | .const v => (constToks v).map fun ts => .tag "const" :: ts
+    | .regex _ d => some [.tag "regex", .str d]
+    | .date => some [.tag "date"]
+    | .bigint => some [.tag "bigint"]
+    | .typed c => some [.tag "typedArray", .str c]
+    | .strfmt fs => some (.tag "stringWithFormat" :: natTok fs.length :: (JsVal.sortStrings fs).map .str)
+    | .numfmt fs => some (.tag "numberWithFormat" :: natTok fs.length :: (JsVal.sortStrings fs).map .str)
     | .consts vs =>
-      let sorted := JsVal.sortBy (fun a b => JsVal.strLe (constSortKey a) (constSortKey b)) vs
-      (mapMO constToks sorted).map fun tss => s.emits (.tag "anyOfConsts" :: natTok vs.length :: tss.flatten)
-    | .tuple pre rest =>
-      match foldHS h pre (s.emits [.tag "tuple", natTok pre.length]) with
-      | none => none
-      | some s1 => match rest with
-        | none => some (s1.emit (.tag "noRest"))
-        | some r => h r (s1.emit (.tag "rest"))
-    | .allOf ts => foldHS h ts (s.emits [.tag "allOf", natTok ts.length])
-    | .anyOf ts => foldHS h ts (s.emits [.tag "anyOf", natTok ts.length])
-    | .array t => h t (s.emit (.tag "array"))
-    | .map k v => match h k (s.emit (.tag "map")) with
-      | some s1 => h v s1
-      | none => none
-    | .set t => h t (s.emit (.tag "set"))
+      (mapMO constToks (sortedConsts vs)).map fun tss => .tag "anyOfConsts" :: natTok vs.length :: tss.flatten
+    | .tuple ps rest =>
+      pre [.tag "tuple", natTok ps.length]
+        (andThen (seqT h ps) (match rest with
+          | none => fun _ => some [.tag "noRest"]
+          | some r => pre [.tag "rest"] (h r))) pos
+    | .allOf ts => pre [.tag "allOf", natTok ts.length] (seqT h ts) pos
+    | .anyOf ts => pre [.tag "anyOf", natTok ts.length] (seqT h ts) pos
+    | .array t => pre [.tag "array"] (h t) pos
+    | .map k v => pre [.tag "map"] (andThen (h k) (h v)) pos
+    | .set t => pre [.tag "set"] (h t) pos
     | .disc schemas key mapping _ =>
-      match foldHS h schemas (s.emits [.tag "anyOfDiscriminated", .str key, natTok schemas.length]) with
-      | none => none
-      | some s1 =>
-        let sorted := JsVal.sortBy (fun (a b : String × RT) => JsVal.strLe a.1 b.1) mapping
-        foldHS (fun (p : String × RT) s => h p.2 (s.emit (.str p.1))) sorted (s1.emit (natTok mapping.length))
-    | .optional t => h t (s.emit (.tag "optionalField"))
+      pre [.tag "anyOfDiscriminated", .str key, natTok schemas.length]
+        (andThen (seqT h schemas)
+          (pre [natTok mapping.length] (seqT (fun (p : String × RT) => pre [.str p.1] (h p.2)) (sortedProps mapping)))) pos
+    | .optional t => pre [.tag "optionalField"] (h t) pos
     | .object props ix =>
-      let sorted := JsVal.sortBy (fun (a b : String × RT) => JsVal.strLe a.1 b.1) props
-      match foldHS (fun (p : String × RT) s => h p.2 (s.emits [.str p.1, .bool (isOptionalField p.2)])) sorted
-              (s.emits [.tag "object", natTok props.length]) with
-      | none => none
-      | some s1 =>
-        foldHS (fun (p : RT × RT) s => match h p.1 s with
-          | some s2 => h p.2 s2
-          | none => none) ix (s1.emit (natTok ix.length))
+      pre [.tag "object", natTok props.length]
+        (andThen (seqT (fun (p : String × RT) => pre [.str p.1, .bool (isOptionalField p.2)] (h p.2)) (sortedProps props))
+          (pre [natTok ix.length] (seqT (fun (p : RT × RT) => andThen (h p.1) (h p.2)) ix))) pos
     | .ref name =>
       match env.lookup name with
       | none => none
       | some to =>
         match stripDescribed to with
-        | .ref other => h (.ref other) s        -- an alias of another named type is transparent
+        | .ref other => h (.ref other) pos        -- an alias of another named type is transparent
         | _ =>
           match act.find? (fun p => p.1 == name) with
-          | some (_, id) => some (s.emits [.tag "cycleRef", natTok id])
-          | none => h256 env n to ((name, s.pos) :: act) s
-    | .described _ t => h t s
+          | some (_, id) => some [.tag "cycleRef", natTok id]
+          | none => h256 env n to ((name, pos) :: act) pos
+    | .described _ t => h t pos
 
 def h256Fuel : Nat := 200
 
+def rootToks : List Tok := [.tag "beff-hash256-v1"]
+
 /-- `ParserFromRuntype.hash256()`: the token stream -/
 def hash256Toks (env : Env) (rt : RT) : Option (List Tok) :=
-  (h256 env h256Fuel rt [] ((⟨[], 0⟩ : HS).emit (.tag "beff-hash256-v1"))).map fun s => s.toks.reverse
+  (h256 env h256Fuel rt [] (bytesLen rootToks)).map (rootToks ++ ·)
 
 /-- … and its digest -/
 def hash256 (env : Env) (rt : RT) : Option String :=
